@@ -10,10 +10,16 @@ import Nq.Basic
 
 namespace Nq.FixedBuf
 
-/-- qmail-qmqpd.c getbuf(): `len >= guard` → every byte is read into `buf[0]`, then `buf[0] = 0`;
-otherwise `getbyte(buf + i)` for `i < len`, then `buf[len] = 0`. -/
-def qmqpdStores (guard len : Nat) : List Nat :=
-  if len ≥ guard then [0] else List.range len ++ [len]
+/-- qmail-qmqpd.c getbuf() for a declared length `len` when `avail` more bytes arrive before end of file
+(`avail > len`: all `len` data bytes and the comma arrived).  `len >= guard` → every byte is read into `buf[0]`,
+then (after the comma) `buf[0] = 0`; otherwise `getbyte(buf + i)` for `i < len`, then `buf[len] = 0`. -/
+def qmqpdStores (guard len avail : Nat) : List Nat :=
+  if len ≥ guard then (if min len avail > 0 then [0] else []) ++ (if avail > len then [0] else [])
+  else List.range (min len avail) ++ (if avail > len then [len] else [])
+
+/-- getbuf()'s return value for NUL-free data: `none` = the daemon exits (end of file) -/
+def qmqpdRet (guard len avail : Nat) : Option Bool :=
+  if avail > len then some (decide (len < guard)) else none
 
 /-- qmail-qmtpd.c, the sender: `len >= guard` → `buf[0] = 0`; otherwise `buf + i`, `buf[len] = 0`. -/
 def qmtpdSenderStores (guard len : Nat) : List Nat :=
@@ -36,6 +42,13 @@ username[k] = 0` -/
 def getpwStores (guard k : Nat) : List Nat :=
   if k < guard then List.range k ++ [k] else []
 
+/-- userext(): the values of `k = extension - local` for which the copy + getpwnam() happens, in the order the
+loop visits them (`extension` walks from the end of `local` down to its start): `k < guard` and `local[k]` is
+the terminating NUL or the break character.  No user exists (the loop runs to the end). -/
+def getpwProbes (guard : Nat) (brk : Byte) (loc : Bytes) : List Nat :=
+  ((List.range (loc.length + 1)).reverse).filter
+    (fun k => decide (k < guard) && (k == loc.length || loc.getD k 0 == brk))
+
 /-- qmail.c qmail_errstr(): `while (substdio_get(&ss,s+len,1) > 0 && len < guard) len++; s[len] = 0;`
 with `avail` bytes coming from the child; returns (indices stored by the reads, final `len`). -/
 def errstrLoop (guard : Nat) : Nat → Nat → List Nat × Nat
@@ -49,5 +62,13 @@ def errstrLoop (guard : Nat) : Nat → Nat → List Nat × Nat
 def errstrStores (guard avail : Nat) : List Nat :=
   let r := errstrLoop guard avail 0
   r.1 ++ [r.2]
+
+/-- qmail-remote.c get(): `if (*ch != '\r') if (smtptext.len < HUGESMTPTEXT) stralloc_append(&smtptext,ch)` -/
+def smtptextStep (cap : Nat) (t : Bytes) (ch : Byte) : Bytes :=
+  if ch ≠ CR ∧ t.length < cap then t ++ [ch] else t
+
+/-- sorted, duplicate-free view of an index list (what the harness can observe of the stores) -/
+def indexSet (l : List Nat) : List Nat :=
+  (List.range (l.foldl max 0 + 1)).filter (fun i => l.contains i)
 
 end Nq.FixedBuf
